@@ -635,8 +635,7 @@ theorem paramsOf_simple (segs : List SSeg) (hw : WFT segs) (name value : Bytes)
     (hname : name.all plainByte = true) :
     paramsOf (renderT segs) name value = some [(name, decode value)] := by
   unfold paramsOf
-  have hdec : (match GoURL.pathUnescape value with | some u => u | none => value) = decode value := rfl
-  simp only [hdec]
+  simp only
   cases hi : indexOf (lbrace :: name ++ [rbrace]) (renderT segs) with
   | none => rfl
   | some idx =>
@@ -659,11 +658,9 @@ theorem paramsOf_simple (segs : List SSeg) (hw : WFT segs) (name value : Bytes)
         | nil => exact this hd
         | cons a t => rw [hd] at h0; cases h0
       simp [hx]
-      rfl
     · have e : idx + name.length + 2 = idx + (name.length + 2) := by omega
       rw [e, h0]
       simp
-      rfl
 
 def plainNames (names : List Bytes) : Prop := ∀ n ∈ names, n.all plainByte = true
 
